@@ -13,6 +13,7 @@ mod oracles;
 mod registry;
 mod scanmc;
 mod scen;
+mod sched;
 mod strace;
 mod tablemc;
 
@@ -40,6 +41,7 @@ fn main() {
                 "C10" => run_corrupt(&args[3]),
                 "C16" => run_fault(&args[3]),
                 "C05" => run_crash(&args[3]),
+                "C06" => run_sched(&args[3]),
                 _ => run_hx(&args[2], &args[3]),
             }
         }
@@ -452,6 +454,74 @@ fn run_crash(tier: &str) -> i32 {
     exit
 }
 
+fn run_sched(tier: &str) -> i32 {
+    let (max_wall, _) = registry::caps(tier);
+    let o = sched::run(tier, threads(), max_wall);
+    let mut exit2 = false;
+    for m in o.machinery.iter().take(10) {
+        eprintln!("MACHINERY: {m}");
+        exit2 = true;
+    }
+    let mut items = vec![];
+    let mut seen = std::collections::BTreeSet::new();
+    // shortest schedule per signature
+    let mut found = o.found.clone();
+    found.sort_by_key(|f| (f.sig.clone(), f.schedule.len()));
+    for f in &found {
+        if !seen.insert(f.sig.clone()) {
+            continue;
+        }
+        let r1: Vec<String> = sched::replay(f).into_iter().map(|x| x.0).collect();
+        let r2: Vec<String> = sched::replay(f).into_iter().map(|x| x.0).collect();
+        if r1 != r2 || !r1.contains(&f.sig) {
+            eprintln!("MACHINERY: schedule {:?} did not replay deterministically for {} ({r1:?} / {r2:?})", f.schedule, f.sig);
+            exit2 = true;
+            continue;
+        }
+        items.push((f.sig.clone(), format!("{} [schedule {:?}]", f.msg, f.schedule), serde_json::to_value(f).unwrap()));
+    }
+    let (mut exit, n_viol, n_known) = report("C06", items);
+    if exit2 && exit == 0 {
+        exit = 2;
+    }
+    let _ = std::fs::remove_dir_all(hx::scratch_root());
+    let ev = evidence::Evidence {
+        property: "C06".into(),
+        tier: tier.into(),
+        level: "model_checking".into(),
+        coverage: serde_json::json!({
+            "states": o.steps_total,
+            "transitions": o.decisions_total,
+            "traces_validated_against_impl": o.executions,
+            "evaluations": o.executions,
+            "distinct_nontrivial": o.outcomes,
+            "rule": "every schedule of each scenario's threads (real OS threads on the real tree, one runs at a time) with at most N preemptions, N iterated 0,1,2(,3); scheduling points before every lock acquisition of the crate and between the writer's seqno allocation / insert / publish; enabledness by probing the real locks; distinct = distinct (flushed prefix, reader observations) outcome",
+            "samples": o.samples,
+            "exhaustive": !o.capped,
+            "capped": o.capped,
+            "schedules_executed": o.executions,
+            "scheduling_decisions": o.decisions_total,
+            "scheduled_steps": o.steps_total,
+            "preemption_bound_completed_per_scenario": o.bound_completed,
+            "scenarios": o.per_scenario,
+            "distinct_outcomes": o.outcomes,
+            "known_findings_matched": n_known,
+        }),
+        assumptions: vec![
+            "sequentially consistent interleavings at the hooked points only (no weak-memory effects, nothing inside crossbeam-skiplist / quick_cache)".into(),
+            "preemption-bounded; the bound completed is reported per scenario".into(),
+        ],
+        wall_s: o.wall_s,
+        violations: n_viol,
+    };
+    evidence::write_evidence(&ev);
+    eprintln!(
+        "[sched C06 {tier}] executions={} decisions={} outcomes={} bounds={:?} violations={n_viol} known={n_known} capped={} wall={:.1}s",
+        o.executions, o.decisions_total, o.outcomes, o.bound_completed, o.capped, o.wall_s
+    );
+    exit
+}
+
 fn run_tablemc(tier: &str) -> i32 {
     let (max_wall, _) = registry::caps(tier);
     let o = tablemc::run(tier, threads(), max_wall);
@@ -594,6 +664,25 @@ fn run_replay(path: &str) -> i32 {
             } else {
                 println!("no violation on replay");
                 0
+            }
+        }
+        Some("sched") => {
+            let c: sched::SchedReplay = serde_json::from_value(v).expect("sched replay");
+            let r = sched::replay(&c);
+            let _ = std::fs::remove_dir_all(hx::scratch_root());
+            println!("scenario {} schedule {:?}", c.scenario.name, c.schedule);
+            if r.is_empty() {
+                println!("no violation on replay");
+                0
+            } else {
+                for (sig, msg) in &r {
+                    println!("violation sig={sig} {msg}");
+                }
+                if r.iter().any(|x| x.0 == "MACHINERY") {
+                    return 2;
+                }
+                println!("VIOLATION property={} replay={path}", c.property);
+                1
             }
         }
         Some("tablemc") => {
